@@ -61,3 +61,23 @@ def apply():
 
     LazyIntSymbolicStr.__eq__ = __eq__
     bl._c14_str_eq_fixed = True
+
+
+class _Null:
+    def __enter__(self):
+        return self
+
+    def __exit__(self, *a):
+        return False
+
+
+def no_tracing():
+    """Context in which CrossHair's tracer is suspended (a no-op outside CrossHair): the code inside runs
+    natively.  Only for blocks in which every value is concrete (selectors made concrete by ob.pick /
+    ob.concrete_* first)."""
+    if 'crosshair' not in sys.modules:
+        return _Null()
+    from crosshair.tracers import NoTracing, is_tracing
+    if not is_tracing():
+        return _Null()
+    return NoTracing()
